@@ -71,8 +71,6 @@ FILES = {
  "replication_ops.rs": [
     r"^pub fn ask_to_join_all_replicas\(", r"^pub fn ask_to_join\(", r"^fn start_replication\(",
     r"^pub async fn auth_on_replication\(", r"^async fn start_sync_process\(",
-    r"^fn add_primary_to_secoundary\(", r"^fn add_secondary_to_primary\(", r"^fn add_secondary_to_secoundary\(",
-    r"^pub async fn start_replication_supervisor\(",
  ],
  "network/http_ops.rs": [],
 }
@@ -88,13 +86,22 @@ def generate(OUT):
         src = rewrite_std(src)
         src = make_pub(src)
         if f == "replication_ops.rs":
+            # the TCP client loop is outside the slice: the connection a supervisor opens is handed to the harness and the thread
+            # that would serve it ends (it would block on the socket for ever)
+            src += """
+/// slicer stub for the dropped `start_replication` (TCP client loop): registers the connection with the harness
+pub fn start_replication(replicate_address: String, command_receiver: Receiver<String>, _user: String, _pwd: String, tcp_addr: String, is_primary: bool, _dbs: &Arc<Databases>) {
+    crate::harness::cluster::register_connection(tcp_addr, replicate_address, is_primary, command_receiver);
+    vsym::end_thread();
+}
+"""
             src = re.sub(r"^use async_std::.*\n", "", src, flags=re.M)
             src = re.sub(r"^use futures::(AsyncWriteExt|executor::block_on|join|io::AsyncBufReadExt);\n", "", src, flags=re.M)
         open(os.path.join(OUT, "src", f), "w").write(src)
         info["files"].append(f)
     open(OUT + "/src/storage/mod.rs", "w").write("pub mod common;\npub mod disk;\npub mod s3;\npub mod s3_partition;\n")
     open(OUT + "/src/network/mod.rs", "w").write("pub mod http_ops;\n")
-    info["dropped_items"] += ["client/*", "command_line/*", "network/tcp_ops.rs", "network/ws_ops.rs"]
+    info["dropped_items"] += ["client/*", "command_line/*", "network/tcp_ops.rs", "network/ws_ops.rs", "replication_ops.rs: start_replication replaced by a stub that hands the connection to the harness"]
     open(OUT + "/src/lib.rs", "w").write("""#![allow(warnings)]
 pub mod bo; pub mod configuration; pub mod consensus_ops; pub mod db_ops; pub mod disk_ops; pub mod election_ops;
 pub mod monitoring; pub mod network; pub mod parse_request; pub mod process_request; pub mod replication_ops;
